@@ -5,7 +5,7 @@ from typedpy.commons import wrap_val
 from .array import has_multiple_items
 
 from .collections_impl import SizedCollection, ContainNestedFieldMixin, _CollectionMeta
-from .fields import TypedField, _map_to_field
+from .fields import TypedField, _map_to_field, _named_copy
 
 
 class Set(
@@ -76,12 +76,13 @@ class Set(
             raise TypeError(f"{self._name}: Got {wrap_val(value)}; Expected {cls}")
         self.validate_size(value, self._name)
         if self.items is not None:
-            setattr(self.items, "_name", self._name)
+            element = _named_copy(self.items, self._name)
+            setattr(self.items, "_name", element._name)
             res = []
             for val in value:
                 temp_st = Structure()
-                self.items.__set__(temp_st, val)
-                res.append(getattr(temp_st, getattr(self.items, "_name")))
+                element.__set__(temp_st, val)
+                res.append(getattr(temp_st, element._name))
             value = cls(res)
             self.validate_size(value, self._name)
         elif cls is set:
@@ -125,13 +126,14 @@ class ImmutableSet(Set, ImmutableField):
         self.validate_size(value, self._name)
         if self.items is not None:
             temp_st = Structure()
-            setattr(self.items, "_name", self._name)
+            element = _named_copy(self.items, self._name)
+            setattr(self.items, "_name", element._name)
             res = set()
             for val in value:
                 if getattr(self, "_immutable", False):
                     temp_st = Structure()
-                self.items.__set__(temp_st, val)
-                res.add(getattr(temp_st, getattr(self.items, "_name")))
+                element.__set__(temp_st, val)
+                res.add(getattr(temp_st, element._name))
                 value = res
             self.validate_size(value, self._name)
         corrected_value = value if isinstance(value, frozenset) else frozenset(value)
